@@ -504,6 +504,24 @@ static void grant_deny(mon::Rng& rng)
     }
     free(src);
   }
+  // grant with a source that must be refused (null; an application buffer that runs into the sandbox): the request never
+  // proceeds, and a refused request holds no sandbox block afterwards
+  for (int kind = 0; kind < 2; kind++) {
+    const T* bad = kind == 0 ? nullptr : reinterpret_cast<const T*>(R.mem() - 8 * sizeof(T));
+    Wd::reset_alloc(*SB);
+    SB->get_sandbox_impl()->brk = 1024;
+    uint64_t live0 = vsbx_ev.mallocs - vsbx_ev.frees;
+    bool copied = false;
+    tainted<const T*, S> res = nullptr;
+    mon::ctx("copy_memory_or_grant_access/%s | refused source kind %d", tn, kind);
+    bool ab = mon::aborts([&] { res = copy_memory_or_grant_access(*SB, bad, 16, false, copied); });
+    uint64_t live1 = vsbx_ev.mallocs - vsbx_ev.frees;
+    mon::evals();
+    std::string what = mon::fmt("copy_memory_or_grant_access<%s>(%s, 16)", tn, kind == 0 ? "null source" : "application buffer starting 8 elements below the sandbox");
+    if (!ab && res != nullptr) report("copy_memory_or_grant_access", "illegal-source-proceeded", what);
+    else if (live1 != live0) report("copy_memory_or_grant_access", "refused-request-left-a-sandbox-block-allocated", what + mon::fmt(": %llu block(s) allocated in the sandbox and never freed", (unsigned long long)(live1 - live0)));
+    else n_illegal_abort++;
+  }
   // deny with a null start: never proceeds (abort, or nothing handed back)
   for (size_t n : { size_t(1), size_t(16), size_t(1) << 33 }) {
     tainted<T*, S> np = nullptr;
